@@ -303,6 +303,12 @@ def run_case(case: dict) -> CaseResult:
                 sess.device_send_at(t0 + tick * TICK, mk(tid, key))
         for tick, i in case.get("cancels", []):
             loop.sim_at(t0 + tick * TICK, env.cancel, f"call{i}")
+        # the transport's write-side flow control (buffer above / below its water marks): a call made meanwhile is
+        # written, registered and timed from the moment it is made all the same
+        for on, off in case.get("pauses", []):
+            proto = sess.dsess.transport.proto
+            loop.sim_at(t0 + on * TICK, lambda p_=proto: None if sess.dsess.transport.closing else p_.pause_writing())
+            loop.sim_at(t0 + off * TICK, lambda p_=proto: None if sess.dsess.transport.closing else p_.resume_writing())
 
         # plain subscriptions on the same response types come and go next to the calls (a redundant second unsubscribe
         # included): they see every message of their type while active and never disturb a call
@@ -533,6 +539,9 @@ def _case(draw, tier):
             case["predisc"] = max(0, case["close"][0] - draw(st.sampled_from([0, 1, 2, 8, 100, 600])))
     if case.get("close") and case["close"][1] == "writefail":
         case["wf_kind"] = draw(st.integers(0, 2))
+    if draw(st.integers(0, 3)) == 0:
+        on = draw(st.sampled_from([0, 0, 1, 3, 250]))
+        case["pauses"] = [[on, on + draw(st.sampled_from([2, 100, 300, 3000]))]]
     if len(msgs) >= 2 and draw(st.integers(0, 2)) == 0:
         case["split"] = draw(st.lists(st.tuples(st.integers(1, len(msgs) - 1), st.sampled_from([1, 2, 3, 4, 5, 6])).map(list), min_size=1, max_size=4, unique_by=lambda x: x[0]))
     if draw(st.integers(0, 2)) == 0:
@@ -595,6 +604,8 @@ def enumerated(tier):
         for d in (1, 40, 200):
             for types in ([PONG], [PONG, 26]):
                 yield {"noise": False, "calls": [{"at": at, "types": types, "append": None, "stop": None, "timeout": 2}], "msgs": [[at + d, PONG, 0], [at + d + 300, PONG, 0]], "close": [0, "pingfail"]}
+    for off in (2, 200, 600):
+        yield {"noise": False, "pauses": [[0, off]], "calls": [{"at": 1, "types": [26], "append": None, "stop": None, "timeout": 1}, {"at": 4, "types": [25], "append": None, "stop": None, "timeout": 2}], "msgs": [[100, 25, 1]]}
     for wf in (1, 2):
         for t in (0, 1, 5):
             yield {"noise": False, "wf_kind": wf, "calls": [{"at": 0, "types": [26], "append": None, "stop": ["never"], "timeout": 1}, {"at": 4, "types": [25], "append": None, "stop": None, "timeout": 2}, {"at": 8, "types": [25], "append": None, "stop": None, "timeout": 2}], "msgs": [[3, 26, 1]], "close": [t, "writefail"]}
